@@ -43,6 +43,8 @@ type Variant struct {
 	// Context control ops (pause/start/kill/update by consumer and stranger), bad responses
 	ControlOps bool
 	Withdraw   bool
+	// InitialHeight of the chain (0 = 1)
+	InitialHeight int64
 }
 
 type provider struct {
@@ -164,7 +166,8 @@ func New(v Variant) func() (*mc.Env, mc.Driver) {
 		e := mc.NewEnv(mc.EnvOptions{
 			Balances: map[string]sdk.Coins{"U": rich, "V": sdk.NewCoins(mc.C(denom, 130)), "O1": rich, "O2": rich, "X": rich,
 				"P1": nil, "P2": nil, "P3": nil, "W": nil},
-			BlockModules: []string{"service"},
+			BlockModules:  []string{"service"},
+			InitialHeight: v.InitialHeight,
 		})
 		d := &Driver{V: v}
 		// module callbacks (shared maps of the real keeper): they only emit events, which the harness counts
@@ -963,14 +966,17 @@ func Parts(mode string) func() []mc.Part {
 		}
 		if mode == "C13" {
 			return []mc.Part{
-				mc.ExplorePart("service-control", New(Variant{Name: "service-control", Mode: mode, Tmpl: []string{"rep", "one"}, ControlOps: true}), 6, 8, true, rule),
+				mc.ExplorePart("service-control", New(Variant{Name: "service-control", Mode: mode, Tmpl: []string{"rep", "one"}, ControlOps: true}), 7, 9, true, rule),
 				mc.ExplorePart("service-schedule", New(Variant{Name: "service-schedule", Mode: mode, Tmpl: []string{"rep", "poor", "mod"}}), 8, 11, true, rule),
+				mc.ExplorePart("service-schedule-at-height-252", New(Variant{Name: "service-schedule-at-height-252", Mode: mode, Tmpl: []string{"rep", "one"}, InitialHeight: 252}), 8, 10, true, rule),
 			}
 		}
 		return []mc.Part{
-			mc.ExplorePartC("outcomes", New(Variant{Name: "outcomes", Mode: mode, Tmpl: []string{"one", "rep"}, ControlOps: true}), 6, 8, true, rule, conf),
-			mc.ExplorePartC("schedule", New(Variant{Name: "schedule", Mode: mode, Tmpl: []string{"rep", "poor"}}), 9, 12, true, rule, conf),
-			mc.ExplorePart("callbacks", New(Variant{Name: "callbacks", Mode: mode, Tmpl: []string{"mod"}}), 9, 12, true, rule),
+			mc.ExplorePartC("outcomes", New(Variant{Name: "outcomes", Mode: mode, Tmpl: []string{"one", "rep"}, ControlOps: true}), 7, 9, true, rule, conf),
+			mc.ExplorePartC("schedule", New(Variant{Name: "schedule", Mode: mode, Tmpl: []string{"rep", "poor"}}), 11, 13, true, rule, conf),
+			mc.ExplorePart("callbacks", New(Variant{Name: "callbacks", Mode: mode, Tmpl: []string{"mod"}}), 11, 13, true, rule),
+			// heights are the keys of the batch queues: batches and expirations of this chain fall on 254..260
+			mc.ExplorePart("schedule-at-height-252", New(Variant{Name: "schedule-at-height-252", Mode: mode, Tmpl: []string{"rep", "one"}, InitialHeight: 252}), 8, 10, true, rule),
 		}
 	}
 }
